@@ -100,3 +100,15 @@ Definition model_view (c : scase) (k : nat) :=
                    | None => None
                    end)) (nodes s),
    chain (srv s), results s).
+
+(** a group of cases checked together (all sync orders of one scenario):
+    0 = all agree; otherwise 1000000 * (1 + index of the case) + its verdict *)
+Fixpoint check_group_aux (k : N) (l : list scase) : N :=
+  match l with
+  | [] => 0%N
+  | c :: l' =>
+      let v := check_scase c in
+      if (v =? 0)%N then check_group_aux (k + 1)%N l' else (1000000 * (k + 1) + v)%N
+  end.
+Definition check_group (l : list scase) : N := check_group_aux 0%N l.
+Definition wf_group (l : list scase) : bool := forallb wf_scase l.
